@@ -292,6 +292,7 @@ VALID_CONFIGS = [
     {"async_client": False}, {"opentelemetry_client": True}, {"async_client": False, "opentelemetry_client": True},
     {"convert_to_snake_case": False, "include_all_inputs": False, "include_all_enums": False},
     {"scalars": {"Date": {"type": "str"}}},
+    {"include_comments": True}, {"include_comments": False, "scalars": {"Date": {"type": "str", "parse": "json.loads"}}},
     {"base_client_name": "MyBase", "base_client_file_path": "base.py"},
     {"target_package_name": "_private_pkg9"},
     {"__remote__": True, "remote_schema_url": "http://x/graphql", "remote_schema_headers": {"Authorization": "$VERIF_C17_TOKEN", "X-Plain": "v"}, "remote_schema_verify_ssl": False},
@@ -299,10 +300,7 @@ VALID_CONFIGS = [
 ]
 
 
-def check_valid_configs(i: int, pre: int) -> bool:
-    """
-    post: _
-    """
+def _valid_config(i, pre, legacy: bool) -> bool:
     k = pick(i, len(VALID_CONFIGS))
     p = pick(pre, 2)
     with NoTracing():
@@ -310,7 +308,7 @@ def check_valid_configs(i: int, pre: int) -> bool:
             import copy
 
             cfg = copy.deepcopy(VALID_CONFIGS[k])
-            job = {"schema": SDL, "queries": OPS, "config": cfg, "files": {"base.py": BASE_PY}}
+            job = {"schema": SDL, "queries": OPS, "config": cfg, "files": {"base.py": BASE_PY}, "legacy_section": legacy}
             if cfg.pop("__remote__", False):
                 job["schema"] = None
                 job["introspection"] = {"sdl": SDL}
@@ -326,6 +324,20 @@ def check_valid_configs(i: int, pre: int) -> bool:
                 calls = r.get("http_calls") or []
                 ok = len(calls) == 1 and calls[0]["headers"] == {"Authorization": "secret-token", "X-Plain": "v"} and calls[0]["verify"] is False
     return ok
+
+
+def check_valid_configs(i: int, pre: int) -> bool:
+    """
+    post: _
+    """
+    return _valid_config(i, pre, False)
+
+
+def check_valid_configs_legacy_section(i: int, pre: int) -> bool:
+    """
+    post: _
+    """
+    return _valid_config(i, pre, True)
 
 
 SCHEMA_TARGETS = [("schema.py", True), ("s.graphql", True), ("s.GQL", True), ("out.txt", False), ("noext", False), ("a.b.py", True), ("x.json", False)]
